@@ -304,6 +304,7 @@ int main(int argc, char **argv)
 	int maxsz, maxn, s, setsz;
 	long x, npat = 0, idx = 0;
 	nv_init(argc, argv);
+	nv_crash_guard("c10-crash");
 	maxsz = atoi(nv_arg(argc, argv, "size", nv_thorough ? "5" : "4"));
 	maxn = atoi(nv_arg(argc, argv, "len", nv_thorough ? "4" : "3"));
 	setsz = atoi(nv_arg(argc, argv, "setsize", "2"));
